@@ -35,8 +35,10 @@
 (*   o.nAll      nTrain + number of extra query rows (rows nTrain+1..nAll  *)
 (*               are rows the forest has never seen)                       *)
 (*   o.y         training labels (cls: the original label values, exact    *)
-(*               integers) or targets (reg: fixed point, value * 2^16;     *)
-(*               the harness only generates dyadic targets, so exact)      *)
+(*               integers) or targets (reg: fixed point, round(v * 2^16))  *)
+(*   o.ySlack    uncertainty of the recorded targets in fixed-point units: *)
+(*               0 when every target is dyadic (o.y exact), 1 when the     *)
+(*               targets are arbitrary reals (o.y rounded); 0 for "cls"    *)
 (*   o.keep      the keep_samples parameter                                *)
 (*   o.hasMask   the forest exposes its bootstrap membership (samples[])   *)
 (*   o.mask      mask[t][r] = TRUE iff training row r is in the bootstrap  *)
@@ -48,6 +50,8 @@
 (*               deserialised member tree: label value / fixed point       *)
 (*   o.predOk, o.pred   predict() on all rows: flag "all values usable"    *)
 (*               and the values (label value / fixed point)                *)
+(*   o.predDigest, o.predDigest2   digests of the exact bit patterns of    *)
+(*               two successive predict() calls on this same forest        *)
 (*   o.oobStatus "ok" | "err" | "panic" outcome of predict_oob(train X)    *)
 (*   o.oobFin    oobFin[r]: the OOB value of row r is a usable number      *)
 (*               (cls: an exact integer, reg: finite); 0 is stored in      *)
@@ -123,16 +127,25 @@ IsMean(tp, use, r, T, m, v) == Abs(m * v - SumIf(tp, use, r, 1, T)) <= MeanTol(m
 CountOK(o) == o.trees = o.nTrees
 
 (***************************************************************************)
+(* Every prediction of the forest and of its member trees is a usable      *)
+(* number: an exact integer for the classifier (label values are integers  *)
+(* in every generated data set), a finite value of magnitude below 915     *)
+(* (the 32-bit budget of the fixed-point sums; the targets are bounded by  *)
+(* 200) for the regressor.  A value that is not usable is recorded as 0    *)
+(* and must not be looked at; it is in any case not a label resp. not in   *)
+(* the range of the targets.                                               *)
+(***************************************************************************)
+Usable(o) == o.tpOk /\ o.predOk
+
+(***************************************************************************)
 (* Shape of the observation: one value per row from every tree and from    *)
 (* the forest, one membership bit per (tree, training row).  Everything    *)
 (* below indexes these sequences, so this is tested first.                 *)
 (***************************************************************************)
 ShapeOK(o) ==
     /\ o.nTrain >= 1 /\ o.nAll >= o.nTrain /\ Len(o.y) = o.nTrain
-    /\ o.tpOk
     /\ Len(o.treePred) = o.trees
     /\ \A t \in 1..o.trees : Len(o.treePred[t]) = o.nAll
-    /\ o.predOk
     /\ Len(o.pred) = o.nAll
     /\ o.hasMask => /\ Len(o.mask) = o.trees
                     /\ \A t \in 1..o.trees : Len(o.mask[t]) = o.nTrain
@@ -143,6 +156,11 @@ OobAvailable(o) ==
     o.keep => /\ o.hasMask
               /\ o.oobStatus = "ok"
               /\ Len(o.oob) = o.nTrain /\ Len(o.oobFin) = o.nTrain
+
+\* "identical forests give identical predictions": a fortiori one forest asked twice
+\* gives the same answer, bit for bit (a vote whose ties are broken by something that is
+\* not a function of the forest and the row fails here and in FitGuard)
+PredictStable(o) == o.predDigest = o.predDigest2
 
 Labels(o) == {o.y[i] : i \in 1..o.nTrain}
 
@@ -195,10 +213,14 @@ SeqMin(s, i, acc) == IF i > Len(s) THEN acc ELSE SeqMin(s, i + 1, IF s[i] < acc 
 RECURSIVE SeqMax(_, _, _)
 SeqMax(s, i, acc) == IF i > Len(s) THEN acc ELSE SeqMax(s, i + 1, IF s[i] > acc THEN s[i] ELSE acc)
 
-\* predictions lie within the range of the training targets.  The targets are dyadic,
-\* so lo and hi are exact integers in fixed point and rounding is monotone: a value
-\* inside the real interval is inside the integer interval; a value outside by more
-\* than half a unit (2^-17) is outside.
+\* predictions lie within the range of the training targets.  Rounding to fixed point is
+\* monotone, so a value inside the real interval [min y, max y] is inside the integer
+\* interval [fx(min y), fx(max y)].  The floating-point mean of values equal to max y may
+\* exceed max y by an ulp or so; when the targets are dyadic (ySlack = 0) fx(max y) is an
+\* exact integer, far from a rounding boundary, and the comparison stays exact; for
+\* arbitrary real targets (ySlack = 1) one unit (2^-16) is granted.  A value outside the
+\* range by more than 2^-16 (dyadic: 2^-17) is rejected; ulp-level excursions are not
+\* decided (DESIGN 1(iii)).
 InRange(v, lo, hi) == lo <= v /\ v <= hi
 
 RangeRows(o, lo, hi) ==
@@ -207,7 +229,7 @@ RangeRows(o, lo, hi) ==
           \A r \in 1..o.nTrain :
               (\E t \in 1..o.trees : ~o.mask[t][r]) => o.oobFin[r] /\ InRange(o.oob[r], lo, hi)
 
-RangeOK(o) == RangeRows(o, SeqMin(o.y, 1, o.y[1]), SeqMax(o.y, 1, o.y[1]))
+RangeOK(o) == RangeRows(o, SeqMin(o.y, 1, o.y[1]) - o.ySlack, SeqMax(o.y, 1, o.y[1]) + o.ySlack)
 
 (***************************************************************************)
 (* Binding of the retained membership bits to the sample the tree was      *)
@@ -219,7 +241,7 @@ RangeOK(o) == RangeRows(o, SeqMin(o.y, 1, o.y[1]), SeqMax(o.y, 1, o.y[1]))
 (* data whose feature values are pairwise distinct within each feature     *)
 (* reproduces its training rows exactly.  A member tree's training rows    *)
 (* are its bootstrap sample, so under those side conditions                *)
-(*         mask[t][r]  =>  treePred[t][r] = y[r].                          *)
+(*         mask[t][r]  =>  treePred[t][r] = y[r]   (within ySlack units).  *)
 (* (Nothing can be said about the rows a tree did not see.)  A forest that *)
 (* records the complement of the sample, or another tree's sample, fails   *)
 (* this.  X is the training matrix, X[r][j].                               *)
@@ -230,7 +252,7 @@ Unlimited(maxDepth, msl, mss) == maxDepth = -1 /\ msl = 1 /\ mss <= 1
 
 InBagFit(o) ==
     o.hasMask => \A t \in 1..o.trees : \A r \in 1..o.nTrain :
-                     o.mask[t][r] => o.treePred[t][r] = o.y[r]
+                     o.mask[t][r] => Abs(o.treePred[t][r] - o.y[r]) <= o.ySlack
 
 (***************************************************************************)
 (* All per-forest clauses, as the name of the first one that fails ("" if  *)
@@ -257,8 +279,10 @@ FirstFailReg(o, fitted, unlimitedDistinct) ==
 
 FirstFail(o, fitted, unlimitedDistinct) ==
     IF ~CountOK(o) THEN "CountOK"
+    ELSE IF ~Usable(o) THEN "Usable"
     ELSE IF ~ShapeOK(o) THEN "ShapeOK"
     ELSE IF ~OobAvailable(o) THEN "OobAvailable"
+    ELSE IF ~PredictStable(o) THEN "PredictStable"
     ELSE IF o.kind = "cls" THEN FirstFailCls(o, fitted, unlimitedDistinct)
     ELSE FirstFailReg(o, fitted, unlimitedDistinct)
 
